@@ -15,7 +15,7 @@ from .c02 import check_rollback
 
 LEVEL = 'fault_enumeration'
 BUDGET_S = {'quick': 150, 'thorough': 1500}
-FAULT_OPS = ('mkdir', 'makedirs', 'rename', 'replace', 'gzip-w')
+FAULT_OPS = ('mkdir', 'makedirs', 'rename', 'replace', 'gzip-w', 'gzip-data')
 BOUNDS = {
     'quick': 'universe U7; skeleton families A3, A4, A5a, A5b, A8 (swap), N3 with success / caught failure modes; histories X, B.X, '
              'B.M.X then one more build; in build X one OSError(EIO) at the j-th call among the library\'s mkdir / makedirs / '
@@ -113,7 +113,7 @@ def harness(eng, fam, P):
                 eng.note('nontrivial:fault-fired')
                 eng.path_info['fault'] = fault.fired[:2]
                 sig = (fam, hist, fault.fired[0])
-                if fault.fired[0] == 'gzip-w':
+                if fault.fired[0] in ('gzip-w', 'gzip-data'):
                     eng.witness('fault-in-cache-write')
                 if fault.fired[0] in ('rename', 'makedirs'):
                     eng.witness('fault-in-backup')
